@@ -128,15 +128,43 @@ def gen_cases(seeds, opt, max_cycles, sticky=0.0, procs=None):
     return [c for r in res for c in r]
 
 
+CHUNK = 160      # cases per TLC run (one JSON file each); larger files make JsonDeserialize and TLC's heap the bottleneck
+
+
+class _Merged:
+    """Sum of the statistics of several TLC runs (what run_core reads from a TLC result)."""
+
+    def __init__(self, results):
+        self.distinct = sum(r.distinct for r in results)
+        self.generated = sum(r.generated for r in results)
+        self.wall_s = max(r.wall_s for r in results)
+
+
 def validate(cases, timeout=3000):
+    if len(cases) <= CHUNK:
+        return _validate_chunk(cases, timeout)
+    from concurrent.futures import ThreadPoolExecutor
+    parts = [(i, cases[i:i + CHUNK]) for i in range(0, len(cases), CHUNK)]
+    with ThreadPoolExecutor(4) as ex:
+        outs = list(ex.map(lambda p: _validate_chunk(p[1], timeout, workers=4, heap="6g"), parts))
+    acc, rej, dev = [], [], []
+    for (off, _), (res, a, r, d) in zip(parts, outs):
+        for lst, dst in ((a, acc), (r, rej), (d, dev)):
+            for x in lst:
+                x["tid"] += off
+                dst.append(x)
+    return _Merged([o[0] for o in outs]), acc, rej, dev
+
+
+def _validate_chunk(cases, timeout=3000, workers=None, heap="12g"):
     fd, path = tempfile.mkstemp(prefix="vcore_", suffix=".json")
     try:
         with os.fdopen(fd, "w") as fh:
             json.dump([{"design": c["design"], "raised": c["raised"], "cycles": c["cycles"]} for c in cases], fh)
         # cases are independent (tid is chosen in Init), so several TLC workers can share them; every
         # verdict is one self-contained line.  Fall back to one worker if the output does not add up.
-        for workers in (min(8, NPROCS), 1):
-            res = tlc.run("TxnCoreTrace", TRACE_CFG, env={"TRACE_FILE": path}, workers=workers, timeout=timeout, heap="12g")
+        for workers in (workers or min(8, NPROCS), 1):
+            res = tlc.run("TxnCoreTrace", TRACE_CFG, env={"TRACE_FILE": path}, workers=workers, timeout=timeout, heap=heap)
             tlc.require_ok(res, "TxnCoreTrace")
             try:
                 acc, rej, dev = tlc.tagged(res, "ACCEPT"), tlc.tagged(res, "REJECT"), tlc.tagged(res, "DEVIATION")
